@@ -16,7 +16,7 @@ AsSets(L) == [files_delete |-> L.files_delete, dirs_delete |-> ToSet(L.dirs_dele
               files_create |-> L.files_create, files_chmod |-> L.files_chmod]
 TraceInit == /\ i \in 1..Len(Recs)
              /\ ws = TreeOf(Recs[i].ws) /\ tgt = TreeOf(Recs[i].tgt) /\ avail = ToSet(Recs[i].avail) /\ del = Recs[i].delete
-             /\ link = Recs[i].link
+             /\ link = Recs[i].link /\ hashed = Recs[i].hashed
              /\ lists = [files_delete |-> {}] /\ errs = {} /\ crash = FALSE /\ dev = {} /\ pc = "compare" /\ act = [op |-> "Init"]
 TraceNext == Next /\ UNCHANGED i
 TraceSpec == TraceInit /\ [][TraceNext]_tvars
